@@ -95,6 +95,7 @@ int muggle_path_basename(const char *path, char *ret, unsigned int size)
 		}
 
 		strncpy(ret, path, size-1);
+		ret[size-1] = '\0';
 		return MUGGLE_OK;
 	}
 
